@@ -69,7 +69,20 @@ Reset). Two harness faults showed up on the way and were repaired: replays of
 large-core rotation witnesses and of second-step witnesses did not take the
 same path as the enumeration.
 
-After these changes all 85 are reported. The table is generated from the last
+Fourth round: 34 more (two per property; agents were asked for plausible
+refactorings that go wrong in a corner needing a specific combination). 30 were
+reported at once; the 4 misses were: a JMZ that treats target address 0 as "not
+taken", and an A-operand side-effect cell computed as fold(PC+a) (C12: the
+battle alphabet had lost its JMZ letter in an earlier edit and had no A-operand
+side-effect modes; it now has 20 letters and the single-warrior rotations use
+all of them); an '88 listing that prints a modifier for SLT (C16: the
+independent listing reader now refuses modifiers in '88 listings and
+modifier-less lines in '94 listings, as the property says); ORG naming a label
+on the END line (C06: `org fin ... fin end` added to the entry-point grid).
+Widening C08's surface variants for this round (a trailing comment on every
+line) exposed defect D23 of the unchanged tree.
+
+After these changes all 119 are reported. The table is generated from the last
 run of every seed against the current machinery. (Two of the agents also
 pointed out defects of the unchanged tree while reading: D20 and D21 of
 section 11.)
